@@ -790,7 +790,7 @@ fn direct_api(t: &mut Tally, _seed: u64, _n: u64) {
 /// Public builders with missing fields, error conversions, Debug/Display of everything reachable (stable API).
 fn stable_api(t: &mut Tally) {
     use scratchstack_aws_signature::auth::SigV4AuthenticatorResponse;
-    use scratchstack_aws_signature::{GetSigningKeyRequest, GetSigningKeyResponse, KSecretKey, KeyTooLongError, SignatureError, SignatureOptions};
+    use scratchstack_aws_signature::{GetSigningKeyRequest, GetSigningKeyResponse, KSecretKey, SignatureError, SignatureOptions};
     use std::str::FromStr;
     let r = catch_unwind(AssertUnwindSafe(|| {
         let mut n = 0;
@@ -831,7 +831,13 @@ fn stable_api(t: &mut Tally) {
         let io: SignatureError = std::io::Error::from_raw_os_error(2).into();
         let _ = format!("{} {:?}", io, io);
         n += 1;
-        let _ = format!("{} {:?}", KeyTooLongError, KeyTooLongError);
+        // (the error value is obtained from the operation that returns it, not constructed here, so that the harness
+        // keeps building when the error type gains fields)
+        if let Err(e) = KSecretKey::<4>::from_str("too long for four") {
+            let _ = format!("{} {:?} {:#?}", e, e, e);
+            let b: Box<dyn std::error::Error> = Box::new(e);
+            let _ = format!("{} {:?} {:?}", b, b, b.source().map(|s| s.to_string()));
+        }
         // key derivation for every date chrono can represent, not only four-digit years
         let key = KSecretKey::<44>::from_str("wJalrXUtnFEMI/K7MDENG+bPxRfiCYEXAMPLEKEY").ok();
         let dates = [
